@@ -22,22 +22,22 @@ import (
 )
 
 type proc struct {
-	label   string
-	f       *appencryption.SessionFactory
-	s       *appencryption.Session
-	recs    []*appencryption.DataRowRecord
-	pays    [][]byte
-	errs    []error
-	encs    int
+	label    string
+	f        *appencryption.SessionFactory
+	s        *appencryption.Session
+	recs     []*appencryption.DataRowRecord
+	pays     [][]byte
+	errs     []error
+	encs     int
 	panicked any
 }
 
 type schedCell struct {
-	name  string
-	nproc int
-	encs  int // encrypts per process
+	name   string
+	nproc  int
+	encs   int // encrypts per process
 	sample int // > 0: this many seeded random schedules instead of the full enumeration (space too large)
-	prep  func(e *env, ps []*proc)
+	prep   func(e *env, ps []*proc)
 }
 
 func schedCells() []schedCell {
@@ -226,7 +226,9 @@ func runSchedule(c schedCell, d *sched.DFS) (res schedResult) {
 	}
 	e.w.MS.Gate = nil
 	res.trace = ctrl.Trace
-	add := func(sig, f string, a ...any) { res.verdicts14 = append(res.verdicts14, verdict{sig, fmt.Sprintf(f, a...)}) }
+	add := func(sig, f string, a ...any) {
+		res.verdicts14 = append(res.verdicts14, verdict{sig, fmt.Sprintf(f, a...)})
+	}
 
 	var winners []string
 	for _, mc := range e.w.MS.CallsFrom(msFrom) {
@@ -382,6 +384,8 @@ func TestC14(t *testing.T) {
 	r.Rule("every interleaving, at the granularity of individual metastore calls, of 2 (and 3) processes - each its own factory and session over one gated, monitored metastore, same virtual time so truncated creation stamps collide - enumerated depth-first with replay from the starting states cold, both keys expired, SK expired/IK valid, IK revoked, SK revoked, one long-lived process with stale caches; the controller releases exactly one parked call per step (synctest.Wait = everybody parked). After each schedule: every encrypt succeeded, every record's IK row and its SK row exist, every process and a fresh factory decrypt every record, rows never changed. Distinct+non-trivial: schedules in which at least one insert was refused.")
 	r.Assume("processes are modelled as separate factories sharing the metastore and KMS; one virtual clock for all", "quick tier truncates each cell (exhaustive=false then); thorough enumerates the 2-process cells completely and caps 3-process cells")
 	max := ev.Pick(350, 40000)
-	exploreSchedules(t, r, "C14", func(c schedCell) bool { return ev.Thorough() || (c.sample == 0 && (c.nproc == 2 || c.name == "cold-3proc")) }, max, false)
+	exploreSchedules(t, r, "C14", func(c schedCell) bool {
+		return ev.Thorough() || (c.sample == 0 && (c.nproc == 2 || c.name == "cold-3proc"))
+	}, max, false)
 	r.Finish(t)
 }
